@@ -9,13 +9,15 @@ pickle does is read off CPython's unpickler on inert stand-ins.  That real tenso
                       model pickle makes the calls of the input's model pickle plus exactly one exec(payload) and returns an
                       equal value; without overwrite the input is untouched, with overwrite it holds the injected archive
                       and no output remains; no other path appears.  "Input" is the file as it is when the call is made.
-* C16.same-member     the member that is replaced is selected by the same predicate as the member `.pickled` parses.
-* C16.fresh-parse     the parsed pickle is obtained per wrapper from the input archive (no process-wide cache).
 * C16.payload-encodable  a text payload the injector accepts also serialises.
 
 (The rules C16.rewrite-loop / C16.one-injection / C16.input-read-only of earlier rounds interpreted the insertion arm over
 opaque member records with sa.minieval; the archive worlds decide the same clauses on what the emitted archive *is*, for
-sequences of calls as well, so those rules were retired rather than kept as a second, cruder verdict.)
+sequences of calls as well, so those rules were retired rather than kept as a second, cruder verdict.  C16.same-member and
+C16.fresh-parse matched the shape of the `.pickled` getter; since the repair of F27 the insertion no longer goes through that
+getter, a shared or memoised parse there cannot reach the emitted archive, and both rules fired on code where the property
+holds (seeds C16-3 / C16-6 after the repair) - retired as false alarms; a parse shared between wrappers that does reach the
+archive shows in the two-wrapper sequences.)
 """
 
 from __future__ import annotations
@@ -39,51 +41,14 @@ def run(rep: Report, tier: str):
         "the same path and sequences of inject_payload(insertion, overwrite on/off) and reads of `.pickled`. After every call "
         "the emitted archive is compared with the input as it was at that call: member names and order, other members' bytes, "
         "what loading the model pickle does on inert stand-ins (calls of the input's model pickle plus exactly one exec(payload), "
-        "equal value), and where the archives are afterwards. Plus structural rules for the member predicate, the per-wrapper "
-        "parse and the payload's encodability. That real tensors compare equal under torch is not decided (stand-ins only)."
+        "equal value), and where the archives are afterwards. Plus the payload's encodability. That real tensors compare equal under torch is not decided (stand-ins only)."
     )
-    rep.rule("C16.same-member", "the replaced member is selected like the parsed member", 1)
-    rep.rule("C16.fresh-parse", "the parsed pickle comes from this wrapper's archive, not from a process-wide cache", 1)
     rep.rule("C16.payload-encodable", "a text payload the injector accepts also serialises (no failure from dumps() once the output archive is open)", 10)
     rep.rule("C16.archive-worlds", "after every injection of every sequence: same members in order, others byte-identical, model pickle = the input's plus one exec(payload) with an equal value, input untouched / replaced as asked, no stray path", 1)
     from .c15 import check_accepted_is_encodable
 
     check_accepted_is_encodable(load_repo(), rep, "C16.payload-encodable", tier)
-    # ---- same-member predicate
     c = repo.cls(W)
-    getter = c.method("pickled", "property")
-    inj = c.method("inject_payload")
-    def preds(fn):
-        out = []
-        for n in body_walk(fn.node):
-            if isinstance(n, ast.Call) and isinstance(n.func, ast.Attribute) and n.func.attr in ("endswith", "startswith", "__eq__") and n.args and isinstance(n.args[0], ast.Constant):
-                out.append((n.func.attr, n.args[0].value))
-            if isinstance(n, ast.Compare) and len(n.ops) == 1 and isinstance(n.ops[0], (ast.Eq, ast.In)) and any(isinstance(x, ast.Constant) and isinstance(x.value, str) and "data.pkl" in x.value for x in [n.left] + n.comparators):
-                k = [x.value for x in [n.left] + n.comparators if isinstance(x, ast.Constant)][0]
-                out.append((type(n.ops[0]).__name__, k))
-        return out
-    pg, pi = preds(getter), preds(inj)
-    if pg and pi and set(pg) == set(pi) and len(set(pg)) == 1:
-        rep.ok("C16.same-member", c.qualname, f"parsed and replaced member both selected by `{pg[0][0]}({pg[0][1]!r})`", f"{getter.file}:{getter.line}")
-    else:
-        rep.bad("C16.same-member", c.qualname, "predicates-differ", f"the member parsed is selected by {pg} but the member replaced by {pi}: a different member than the one analysed/injected can be overwritten (or none)", getter.file, getter.line)
-    # ---- fresh parse per wrapper
-    loads = [n for n in body_walk(getter.node) if isinstance(n, ast.Call) and dotted(n.func) == "Pickled.load"]
-    zips = [n for n in body_walk(getter.node) if isinstance(n, ast.Call) and dotted(n.func) == "zipfile.ZipFile" and n.args and dotted(n.args[0]) == "self.path"]
-    cached = []
-    for fn in repo.functions.values():
-        if fn.module.name == "fickling.pytorch":
-            for d in getattr(fn.node, "decorator_list", []):
-                dn = dotted(d) or (dotted(d.func) if isinstance(d, ast.Call) else "") or ""
-                if dn.split(".")[-1] in ("lru_cache", "cache", "cached_property"):
-                    cached.append(fn)
-    stores = [n for n in body_walk(getter.node) if isinstance(n, ast.Assign) and dotted(n.targets[0]) == "self._pickled"]
-    if loads and zips and not cached and stores and all(s.value is loads[0] or any(s.value is x for x in loads) for s in stores):
-        rep.ok("C16.fresh-parse", getter.qualname, "self._pickled = Pickled.load(<data.pkl of zipfile.ZipFile(self.path, 'r')>), per wrapper instance", f"{getter.file}:{getter.line}")
-    else:
-        why = f"memoised helper {cached[0].qualname}" if cached else "the getter does not parse the member of self.path itself"
-        rep.bad("C16.fresh-parse", getter.qualname, "shared-parse", f"the parsed model pickle is not obtained per wrapper from the input archive ({why}): a Pickled object shared between wrappers is mutated by each injection, so a second injection into the same file carries both payloads", getter.file, getter.line)
-
     # ---- archive worlds (interpretive; last, so that the structural findings above stand if interpretation ends undecided)
     from .. import torchworlds
 
